@@ -19,6 +19,7 @@ import DSymVerif.Proofs.Delaney2dGeom
 import DSymVerif.Proofs.Delaney2dChi
 import DSymVerif.Proofs.Delaney2dSum
 import DSymVerif.Proofs.Delaney2dExamples
+import DSymVerif.Proofs.Delaney2dClassify
 
 namespace DSymVerif.C08
 open DSymVerif.DS DSymVerif.D2 DSymVerif.SpecC08
@@ -248,27 +249,6 @@ theorem bad_families_chi_pos (p q : Nat) (hp : 2 ≤ p) (hq : 2 ≤ q) :
 
 example : (2 : Nat) ≤ 2 ∧ (2 : Nat) ≤ 3 ∧ (2 : Nat) ≠ 3 := by decide
 
-/-- the spherical (good) 2-orbifolds: `1`, `*`, `x`, `nn`, `*nn`, `n*`, `nx`, `22n`, `*22n`,
-    `2*n` (n ≥ 1) and `332`, `*332`, `3*2`, `432`, `*432`, `532`, `*532` -/
-inductive GoodSpherical : Orb → Prop
-  | sphere : GoodSpherical ⟨[], [], 0, 0⟩
-  | disc : GoodSpherical ⟨[], [[]], 0, 0⟩
-  | projective : GoodSpherical ⟨[], [], 0, 1⟩
-  | nn (n : Nat) : 1 ≤ n → GoodSpherical ⟨[n, n], [], 0, 0⟩
-  | star_nn (n : Nat) : 1 ≤ n → GoodSpherical ⟨[], [[n, n]], 0, 0⟩
-  | n_star (n : Nat) : 1 ≤ n → GoodSpherical ⟨[n], [[]], 0, 0⟩
-  | n_x (n : Nat) : 1 ≤ n → GoodSpherical ⟨[n], [], 0, 1⟩
-  | d22n (n : Nat) : 1 ≤ n → GoodSpherical ⟨[2, 2, n], [], 0, 0⟩
-  | star_22n (n : Nat) : 1 ≤ n → GoodSpherical ⟨[], [[2, 2, n]], 0, 0⟩
-  | d2_star_n (n : Nat) : 1 ≤ n → GoodSpherical ⟨[2], [[n]], 0, 0⟩
-  | t332 : GoodSpherical ⟨[3, 3, 2], [], 0, 0⟩
-  | star_332 : GoodSpherical ⟨[], [[3, 3, 2]], 0, 0⟩
-  | t3_star_2 : GoodSpherical ⟨[3], [[2]], 0, 0⟩
-  | o432 : GoodSpherical ⟨[4, 3, 2], [], 0, 0⟩
-  | star_432 : GoodSpherical ⟨[], [[4, 3, 2]], 0, 0⟩
-  | i532 : GoodSpherical ⟨[5, 3, 2], [], 0, 0⟩
-  | star_532 : GoodSpherical ⟨[], [[5, 3, 2]], 0, 0⟩
-
 /-- every symbol of the good-spherical list has positive χ and is not bad (for all n ≥ 1, by
     arithmetic) -/
 theorem good_spherical_chi_pos (o : Orb) (h : GoodSpherical o) : 0 < chiQ o ∧ bad o = false := by
@@ -324,6 +304,18 @@ theorem good_spherical_chi_pos (o : Orb) (h : GoodSpherical o) : 0 < chiQ o ∧ 
   | star_532 => exact ⟨by norm_num [chiQ, dq], by decide⟩
 
 example : GoodSpherical ⟨[5, 3, 2], [], 0, 0⟩ := .i532
+
+/-- **classification**: conversely, every symbol (orders ≥ 1) with χ > 0 that is not bad is — up to
+    the order of its cones and of the corners on its boundary component, orders 1 dropped — a
+    member of the good-spherical list `1, *, x, nn, *nn, n*, nx, 22n, *22n, 2*n, 332, *332, 3*2,
+    432, *432, 532, *532`.  So the Spec's "χ > 0 and not bad" is exactly "spherical". -/
+theorem spherical_classification (o : Orb) (h : o.WF) (hpos : 0 < chiQ o) (hb : bad o = false) :
+    ∃ g, GoodSpherical g ∧ SameUpToOrder o g :=
+  SpecC08.spherical_classification o h hpos hb
+
+example : (⟨[2, 3, 1, 5], [], 0, 0⟩ : Orb).WF ∧ 0 < chiQ ⟨[2, 3, 1, 5], [], 0, 0⟩ ∧
+    bad ⟨[2, 3, 1, 5], [], 0, 0⟩ = false := by
+  refine ⟨by constructor <;> simp, by norm_num [chiQ, dq], by decide⟩
 
 /-! ### 6. the curvature as a sum over chambers, and its invariances -/
 
